@@ -33,7 +33,7 @@ func c18Terminal(s mesos.TaskState) bool {
 //     answered with exactly one KILL for that task on that agent;
 //   - a task owned by a live environment is never killed because of a status update, reconciliation or not;
 //   - terminal states are never answered with a KILL.
-//verif:entry HarnessReconciliationDecision unwind=16 preempt=1 reach=killed,spared,terminal stub=github.com/AliceO2Group/Control/common/utils.TimeTrack
+//verif:entry HarnessReconciliationDecision unwind=16 conform=12 preempt=1 reach=killed,spared,terminal stub=github.com/AliceO2Group/Control/common/utils.TimeTrack
 func HarnessReconciliationDecision() {
 	env := uid.ID("2oDvieFrVTi")
 	state := c18States[vrt.IntRange("mesos.state", 0, len(c18States)-1)]
@@ -86,7 +86,7 @@ func HarnessReconciliationDecision() {
 // Two consecutive reconciliation answers (the core reconnected twice, or the first KILL was lost): every answer
 // about a task this core does not know and Mesos reports alive is answered with a KILL of its own, whether the
 // previous KILL call succeeded or not - the leftover is pursued until it is gone.
-//verif:entry HarnessRepeatedReconciliation unwind=16 preempt=1 reach=twice stub=github.com/AliceO2Group/Control/common/utils.TimeTrack
+//verif:entry HarnessRepeatedReconciliation unwind=16 conform=12 preempt=1 reach=twice stub=github.com/AliceO2Group/Control/common/utils.TimeTrack
 func HarnessRepeatedReconciliation() {
 	other, _ := ftTask("other", uid.ID("2oDvieFrVTi"), true)
 	w := ftManager(Tasks{other}, nil)
@@ -118,7 +118,7 @@ func HarnessRepeatedReconciliation() {
 // What the core asks on every (re-)subscription: an implicit reconciliation (no task listed), whatever is in
 // the roster at that time, so that the master reports every task of the framework - also those this core
 // does not know.
-//verif:entry HarnessReconcileOnSubscribed unwind=16 preempt=0 reach=asked stub=github.com/AliceO2Group/Control/common/utils.TimeTrack
+//verif:entry HarnessReconcileOnSubscribed unwind=16 conform=12 preempt=0 reach=asked stub=github.com/AliceO2Group/Control/common/utils.TimeTrack
 func HarnessReconcileOnSubscribed() {
 	var tasks Tasks
 	n := vrt.IntRange("roster.size", 0, 2)
